@@ -663,6 +663,13 @@ class FuncAnalysis:
         elif isinstance(target, ast.Attribute):
             recv = self.ev(target.value)
             if recv.kind == "record":
+                setters = [m for m in (self.find_method(a_[0], a_[1], f"{target.attr}.setter") for a_ in alts_of(recv)) if m is not None]
+                if setters:
+                    # a property with a setter: the assignment runs the setter's body
+                    for m in setters:
+                        ps = func_params(m.node)
+                        self.inline_call(m, {ps[0]: recv, **({ps[1]: av} if len(ps) > 1 else {})}, target)
+                    return
                 recv.fields[target.attr] = av if target.attr not in recv.fields or not self.in_loop else recv.fields[target.attr].join(av)
                 return
             self.effect(recv, f"attribute store .{target.attr}", target)
@@ -948,6 +955,8 @@ class FuncAnalysis:
         t = self.an.res.resolve(self.rel, n.id, self.fi)
         if t and t[0] == "func" and (t[1], t[2]) in self.an.summ:
             return AV(fn={("func", t[1], t[2])})  # a repository function used as a value
+        if t and t[0] == "class" and (t[1], t[2]) in self.repo.classes and t[2] not in ("Circuit", "BlackBox"):
+            return self.class_value(t[1], t[2])  # a helper class used as a value
         mc = self.an.res.module_consts.get((self.rel, n.id))
         if mc is not None and not getattr(self, "_in_module_const", 0) > 3:
             # a module-level constant: only the callables it may hold matter here (a table of functions / lambdas / accessors)
@@ -971,6 +980,15 @@ class FuncAnalysis:
         a = n.attr
         if base.kind == "record":
             return self.record_attr(base, a, n)
+        hcs = [d for d in base.fn if d[0] == "hclass"]
+        if hcs and not base.any_tags():
+            out = None
+            for d in sorted(hcs):
+                av = self.class_attr(d[1], d[2], a, n)
+                if av is not None:
+                    out = av if out is None else out.join(av)
+            if out is not None:
+                return out
         if a == "graph" and base.kind in ("Circuit", None):
             tags = {(p, "graph") for (p, part) in base.tags if part == "self"} | {(p, "attrdict") for (p, part) in base.tags if part in ("graph", "nodeview")} | set(base.g)
             tags |= {(p, part) for (p, part) in base.tags if part not in ("self", "graph", "nodeview") and part not in BB_PARTS and base.kind is None}
@@ -1120,6 +1138,23 @@ class FuncAnalysis:
             names = [a0.value] if isinstance(a0, ast.Constant) and isinstance(a0.value, str) else (list(self.const_vars[a0.id]) if isinstance(a0, ast.Name) and a0.id in self.const_vars else None)
             if names and cn_ != "itemgetter":
                 return AV(fn={("accessor", "method" if cn_ == "methodcaller" else "attr", nm_) for nm_ in names})
+        if isinstance(f, ast.Name) and f.id in ("setattr", "delattr") and f.id not in self.env and len(n.args) >= 2:
+            # setattr(obj, name, value): an attribute store under a computed name
+            self.an.resolved_sites += 1
+            recv = argav[0]
+            val = argav[2] if len(argav) > 2 else FRESH
+            if recv.kind == "record" and recv.fields is not None:
+                a1 = n.args[1]
+                key = a1.value if isinstance(a1, ast.Constant) and isinstance(a1.value, str) else "*"
+                recv.fields[key] = val if key not in recv.fields else recv.fields[key].join(val)
+                return FRESH
+            self.effect(recv, f"{f.id}()", n)
+            if len(argav) > 2:
+                self.store_into(n.args[0], "elems", flat(val))
+            return FRESH
+        applied = self.apply_callable_arguments(n, cn_, argav, kwav)
+        if applied is not None:
+            return applied
         if isinstance(f, ast.Attribute):
             dn = dotted(f)
             target = self.an.res.resolve(self.rel, dn, self.fi) if dn else None
@@ -1140,6 +1175,8 @@ class FuncAnalysis:
                         # `Helper.make(...)`: an alternative constructor / static helper of a class of the package, analysed inline
                         self.an.resolved_sites += 1
                         actual = self.bind_actuals(params if "staticmethod" in decs else params[1:], argav, kwav)
+                        if "classmethod" in decs and params:
+                            actual[params[0]] = self.class_value(self.rel, f.value.id, with_subclasses=True)
                         return self.inline_call(m, actual, n)
             recv = self.ev(f.value)
             if recv.kind == "record":
@@ -1197,6 +1234,8 @@ class FuncAnalysis:
             if not is_local and (self.rel, f.id) in self.an.res.tuple_classes:
                 self.an.resolved_sites += 1
                 return self.construct_record(n, self.rel, f.id, argav, kwav, fields=self.an.res.tuple_classes[(self.rel, f.id)])
+            if f.id == "cls" and is_local and self.env[f.id].fn and not self.env[f.id].any_tags():
+                return self.call_fn(n, self.env[f.id].fn, argav, kwav)  # `cls(...)` in a classmethod: the class it was called on, or one derived from it
             if f.id == "cls" and self.fi.cls and (self.rel, self.fi.cls) in self.repo.classes and self.fi.cls not in ("Circuit", "BlackBox"):
                 self.an.resolved_sites += 1
                 return self.construct_record(n, self.rel, self.fi.cls, argav, kwav)
@@ -1238,6 +1277,48 @@ class FuncAnalysis:
             self.s.unknown_calls.append({"line": n.lineno, "text": norm(n)[:120], "params": sorted(held), "why": f"call through a value that aliases (or holds) parameter(s) {sorted(held)} and is not a callable the analysis can follow"})
         return self.call_unknown(n, norm(f), argav, kwav)
 
+    # library functions that call a callable they are given: (positions of the callable among the positional arguments, keyword names)
+    _APPLIES = {"map": ((0,), ()), "filter": ((0,), ()), "filterfalse": ((0,), ()), "starmap": ((0,), ()), "reduce": ((0,), ()), "accumulate": ((1,), ("func",)),
+                "takewhile": ((0,), ()), "dropwhile": ((0,), ()), "sorted": ((), ("key",)), "max": ((), ("key", "default")), "min": ((), ("key", "default")),
+                "groupby": ((1,), ("key",)), "defaultdict": ((0,), ()), "sort": ((), ("key",)), "iter": ((0,), ())}
+
+    def apply_callable_arguments(self, n, name, argav, kwav):
+        """`map(c.remove, dead)`, `sorted(ns, key=c.fanout)`, `reduce(merge, parts)`: the library function calls the callable it is
+        handed on (elements of) its other arguments - the callable's effects and results are those of the call."""
+        spec = self._APPLIES.get(name)
+        if spec is None:
+            return None
+        f = n.func
+        if isinstance(f, ast.Name) and f.id in self.env:
+            return None
+        if isinstance(f, ast.Attribute) and not (isinstance(f.value, ast.Name) and f.value.id in ("itertools", "functools", "collections", "builtins") or name == "sort"):
+            return None
+        cands = [(i, argav[i]) for i in spec[0] if i < len(argav)] + [(k, kwav[k]) for k in spec[1] if k in kwav]
+        cands = [(i, av) for i, av in cands if av.fn]
+        if not cands:
+            return None
+        if name == "iter" and len(argav) != 2:
+            return None
+        others = [av for j, av in enumerate(argav) if not any(i == j for i, _ in cands)] + [av for k, av in kwav.items() if not any(i == k for i, _ in cands)]
+        if isinstance(f, ast.Attribute) and name == "sort":
+            others.append(self.ev(f.value))
+        elem = None
+        for av in others:
+            for x in (elem_of(av), elem_of(elem_of(av))) if name == "starmap" else (elem_of(av),):
+                elem = x if elem is None else elem.join(x)
+        elem = elem if elem is not None else FRESH
+        results = None
+        for _, cav in cands:
+            r = self.call_fn(n, cav.fn, [elem, elem, elem][: 1 if name not in ("reduce", "accumulate", "starmap") else 3], {})
+            results = r if results is None else results.join(r)
+        held = set()
+        for av in others:
+            held |= bb_tags(av) | elem_of(av).tags | av.elems
+        if name in ("map", "starmap", "reduce", "accumulate", "defaultdict", "iter"):
+            out = flat(flatten_record(results)) | (held if name in ("reduce", "accumulate") else set())
+            return AV(out if name == "reduce" else (), None, elems=out, fn=results.fn)
+        return AV(held if name in ("max", "min") else (), None, elems=held)
+
     def call_fn(self, n, fn, argav, kwav, depth=0):
         """A call through a value: apply every callable the value may be (AV.fn) and join the results."""
         out = None
@@ -1273,6 +1354,8 @@ class FuncAnalysis:
             elif d[0] == "boundmethod":
                 base, attr = self.an.boundmethods[d[1]]
                 av = self.call_method(n, base, attr, argav, kwav)
+            elif d[0] == "hclass":
+                av = self.construct(n, ("class", d[1], d[2]), argav, kwav)
             else:
                 av = self.call_unknown(n, f"<{d[0]}>", argav, kwav)
             out = av if out is None else out.join(av)
@@ -1302,6 +1385,94 @@ class FuncAnalysis:
             if isinstance(st, ast.AnnAssign) and isinstance(st.target, ast.Name) and "ClassVar" not in ast.unparse(st.annotation):
                 names.append(st.target.id)
         return names
+
+    def subclasses_of(self, rel, cname):
+        """The helper class and every class of the same module derived from it (transitively)."""
+        out, grew = [cname], True
+        while grew:
+            grew = False
+            for (r_, c_), cdef in self.repo.classes.items():
+                if r_ == rel and c_ not in out and any((dotted(b) or "").split(".")[-1] in out for b in cdef.bases):
+                    out.append(c_)
+                    grew = True
+        return out
+
+    def class_value(self, rel, cname, with_subclasses=False):
+        """A helper class of the package used as a value (stored in a table, bound to `cls`): calling the value constructs it."""
+        names = self.subclasses_of(rel, cname) if with_subclasses else [cname]
+        return AV(fn={("hclass", rel, c_) for c_ in names})
+
+    def class_attr(self, rel, cname, attr, n, depth=0):
+        """`Helper.attr` read on the class itself: the callables a class-level table may hold.  A table of a class whose
+        hierarchy defines `__init_subclass__` may have been filled with any class derived from the one that defines the hook
+        (the registry idiom); a method is a callable of the class."""
+        cdef = self.repo.classes.get((rel, cname))
+        if cdef is None or depth > 4:
+            return None
+        for st in cdef.body:
+            value = None
+            if isinstance(st, ast.Assign) and any(isinstance(t, ast.Name) and t.id == attr for t in st.targets):
+                value = st.value
+            elif isinstance(st, ast.AnnAssign) and isinstance(st.target, ast.Name) and st.target.id == attr and st.value is not None:
+                value = st.value
+            if value is None:
+                continue
+            saved_env, self.env = self.env, {}
+            try:
+                fn = set(self.ev_quiet(value).fn)
+            except Exception:
+                fn = set()
+            finally:
+                self.env = saved_env
+            if self.find_method(rel, cname, "__init_subclass__") is not None:
+                for c_ in self.subclasses_of(rel, cname):
+                    fn.add(("hclass", rel, c_))
+            return AV(fn=frozenset(fn)) if fn else FRESH
+        for b in cdef.bases:
+            bn = (dotted(b) or "").split(".")[-1]
+            if (rel, bn) in self.repo.classes:
+                av = self.class_attr(rel, bn, attr, n, depth + 1)
+                if av is not None:
+                    return av
+        return None
+
+    def record_field_defs(self, rel, cname):
+        """(name, is_initvar, default expression or None) of the annotated fields of a dataclass-like helper class, bases first."""
+        cdef = self.repo.classes.get((rel, cname))
+        if cdef is None:
+            return []
+        out = []
+        for b in cdef.bases:
+            bn = (dotted(b) or "").split(".")[-1]
+            if (rel, bn) in self.repo.classes:
+                out += self.record_field_defs(rel, bn)
+        for st in cdef.body:
+            if isinstance(st, ast.AnnAssign) and isinstance(st.target, ast.Name) and "ClassVar" not in ast.unparse(st.annotation):
+                out = [d for d in out if d[0] != st.target.id]
+                out.append((st.target.id, ast.unparse(st.annotation).split(".")[-1].startswith("InitVar"), st.value))
+        return out
+
+    def field_default(self, value):
+        """Abstract value of a dataclass field that the constructor call does not supply: its default (`= expr`,
+        `field(default=expr)`) or the result of `field(default_factory=f)`; None when the field has no default."""
+        if value is None:
+            return None
+        expr = value
+        if isinstance(value, ast.Call) and (dotted(value.func) or "").split(".")[-1] == "field":
+            kws = {k.arg: k.value for k in value.keywords}
+            if "default_factory" in kws:
+                expr = ast.copy_location(ast.Call(func=kws["default_factory"], args=[], keywords=[]), value)
+            elif "default" in kws:
+                expr = kws["default"]
+            else:
+                return None
+        saved_env, self.env = self.env, {}
+        try:
+            return self.ev_quiet(expr)
+        except Exception:
+            return FRESH
+        finally:
+            self.env = saved_env
 
     def find_method(self, rel, cname, mname, depth=0):
         if (rel, f"{cname}.{mname}") in self.repo.funcs:
@@ -1364,9 +1535,22 @@ class FuncAnalysis:
         extra = argav[len(names):]
         if extra:
             rec.fields["*"] = AV((), None, elems=set().union(*[flat(flatten_record(a)) for a in extra]))
+        initvars = []
+        if fields is None:
+            for nm, is_initvar, dflt in self.record_field_defs(rel, cname):
+                if nm not in rec.fields:
+                    av = self.field_default(dflt)
+                    if av is not None:
+                        rec.fields[nm] = av
+                if is_initvar:
+                    # an InitVar is an argument of __post_init__, never an attribute of the object
+                    initvars.append(rec.fields.pop(nm, FRESH))
         post = self.find_method(rel, cname, "__post_init__") if fields is None else None
         if post is not None:
-            self.inline_call(post, {func_params(post.node)[0]: rec}, n)
+            pparams = func_params(post.node)
+            actual = {pparams[0]: rec}
+            actual.update(dict(zip(pparams[1:], initvars)))
+            self.inline_call(post, actual, n)
         return rec
 
     def record_attr(self, base, attr, n):
@@ -1428,6 +1612,8 @@ class FuncAnalysis:
             actual = self.bind_actuals(params, argav, kwav)
         elif "classmethod" in decs:
             actual = self.bind_actuals(params[1:], argav, kwav)
+            if params and recv.cls is not None:
+                actual[params[0]] = self.class_value(recv.cls[0], recv.cls[1], with_subclasses=True)
         else:
             actual = {params[0]: recv} if params else {}
             actual.update(self.bind_actuals(params[1:], argav, kwav))
